@@ -39,7 +39,9 @@ SIM_NOTE = ("Trusted base: the harness (recorder, oracle), tokio's paused clock 
             "allocator shim. Held = held on the executions produced (bounded, sampled), not verified.")
 
 def c07_jobs(tier):
-    jobs = [sim("c07-direct", "c07", require_counters=["mailbox_full_observations", "empty_wakeups_mid_wait"])]
+    jobs = [sim("c07-direct", "c07", require_counters=["mailbox_full_observations", "empty_wakeups_mid_wait"]),
+            # the manager -> registry lock nesting needs real threads: stable build, multi-thread runtime, real clock
+            sim("c07-pushlock-mt", "c07p", engine_arg="mt", shards=8, require_counters=["calls.CreatePushOk", "registered_ok", "hook_points_during_client_phase"])]
     if tier == "thorough":
         jobs.append(sim("c07-h2", "c07", transport="h2", require_counters=["mailbox_full_observations"]))
         jobs.append(asan_mt("c07-asan-mt", "c07", crash_property="C07"))
